@@ -44,6 +44,7 @@ def cases(tier, seed):
             yield {"kind": "kiss_kernel", "sizes": sizes, "seed": rnd.randrange(10**6)}
         for m, corr, train in itertools.product([1, 3, 5], [True, False], [True, False]):
             yield {"kind": "nystrom", "m": m, "correction": corr, "training": train, "seed": rnd.randrange(10**6)}
+            yield {"kind": "nystrom", "m": m, "correction": corr, "training": train, "z_at_x": True, "seed": rnd.randrange(10**6)}
         for D_ in (4, 16):
             yield {"kind": "rff", "num_samples": D_, "seed": rnd.randrange(10**6)}
         for model, chol, fpv, corr, tz in itertools.product(["kiss1d", "kiss2d", "sgpr", "rff"], [800, 0], [False, True], [True, False], [True, False]):
@@ -308,11 +309,12 @@ def _nystrom(case, ctx, g):
 
     K = gpytorch.kernels
     lik = gpytorch.likelihoods.GaussianLikelihood()
-    Z = util.randn(g, case["m"], 2)
+    X, X2 = util.randn(g, 5, 2), util.randn(g, 3, 2)
+    # inducing points anywhere, or AT the first m training inputs (zero Nystrom residual there)
+    Z = X[: case["m"]].clone() if case.get("z_at_x") else util.randn(g, case["m"], 2)
     ipk = K.InducingPointKernel(K.ScaleKernel(K.MaternKernel(nu=2.5)), inducing_points=Z.clone(), likelihood=lik)
     util.randomize(ipk.base_kernel, g, 0.5)
     ipk.train(case["training"])
-    X, X2 = util.randn(g, 5, 2), util.randn(g, 3, 2)
     Zc = ipk.inducing_points.detach()
     bk = ipk.base_kernel
     Kzz, Kxz, K2z = _eager(bk, Zc, Zc), _eager(bk, X, Zc), _eager(bk, X2, Zc)
@@ -327,7 +329,11 @@ def _nystrom(case, ctx, g):
     corr = case["correction"] and not case["training"]
     def add_corr(Q):
         return Q + torch.diag((torch.diagonal(_eager(bk, X, X)) - torch.diagonal(Q)).clamp_min(0)) if corr else Q
-    ctx.close("nystrom", gxx, add_corr(refs[0][0]), (1e-7, 1e-7), cls=f"nystrom:xx:{'corr' if corr else 'plain'}", alt=add_corr(refs[1][0]))
+    ctx.close("nystrom", gxx, add_corr(refs[0][0]), (1e-7, 1e-7), cls=f"nystrom:xx:{'corr' if corr else 'plain'}" + (":z_at_x" if case.get("z_at_x") else ""), alt=add_corr(refs[1][0]))
+    if case.get("z_at_x"):
+        # at the inducing points the Nystrom matrix reproduces the kernel: the corrected diagonal is the kernel's own diagonal to rounding
+        dg = torch.diagonal(gxx)[: case["m"]]
+        ctx.close("nystrom", dg, torch.diagonal(_eager(bk, X, X))[: case["m"]], (3e-8, 3e-8), cls="nystrom:diag_at_inducing_points:" + ("corr" if corr else "plain"))
     if gx2 is not None:
         ctx.close("nystrom", gx2, refs[0][1], (1e-7, 1e-7), cls="nystrom:cross", alt=refs[1][1])
 
@@ -612,6 +618,23 @@ def _interp(case, ctx, g):
     ref = torch.zeros(2, G)
     ref[torch.arange(2), hot] = 1.0
     ctx.close("interp_exact_at_nodes", Wn, ref, (1e-10, 1e-10), cls=f"interp:nodes:{d}d", sizes=sizes)
+    # the whole grid range, first and last cells included (there: all weight on the nearest node), and the boundary nodes
+    # themselves: g_0, g_1, g_{n-2}, g_{n-1}
+    lo0, hi0 = torch.stack([gd[0] for gd in grid]), torch.stack([gd[-1] for gd in grid])
+    xb_ = lo0 + (hi0 - lo0) * util.rand(g, 60, d)
+    edge = util.rand(g, 60, d)
+    hcell = torch.stack([gd[1] - gd[0] for gd in grid])
+    # a third of the coordinates in the first cell, a third in the last cell (never within 2 % of a midpoint: ties)
+    frac = 0.02 + 0.45 * util.rand(g, 60, d) + 0.51 * (util.rand(g, 60, d) > 0.5)
+    xb_ = torch.where(edge < 0.33, lo0 + frac * hcell, torch.where(edge < 0.66, hi0 - frac * hcell, xb_))
+    mid = ((xb_ - lo0) / hcell) % 1.0
+    xb_ = torch.where(((mid - 0.5).abs() < 0.02) & ((edge < 0.66)), xb_ + 0.05 * hcell * (xb_ < (lo0 + hi0) / 2) - 0.05 * hcell * (xb_ >= (lo0 + hi0) / 2), xb_)
+    special = torch.stack([torch.stack([gd[j] for gd in grid]) for j in (0, 1, -2, -1)])
+    xb_ = torch.cat([xb_, special])
+    idb, vb = Interpolation().interpolate(grid, xb_)
+    Wb = torch.zeros(xb_.shape[0], G).scatter_add_(1, idb, vb)
+    ctx.close("interp_matrix_equals_tensor_product", Wb, I.weights_nd_with_boundaries(grid, xb_), (1e-9, 1e-9), cls=f"interp:with_boundary_cells:{d}d", sizes=sizes)
+    ctx.close("interp_sum_to_one", vb.sum(-1), torch.ones(xb_.shape[0]), (1e-12, 1e-12), cls=f"interp:boundary:{d}d")
 
 
 def _convergence(case, ctx, g):
